@@ -54,7 +54,9 @@ func correspondence(c *hx.Ctx) {
 	r := c.Rng.Fork()
 	// ---- calculateShortnameExtension ------------------------------------------------------------
 	fixed := []string{"", "a", "readme.txt", "README.TXT", "longfilename.extension", "a.b.c", ".hidden", "trailing.", "..", "x.tar.gz",
-		"exactly8.ext", "ninechars.e", "sp ace.t t", "ünïcödé.txt", "ıſ.ıſ", "A_B-C.D+E", "12345678.123", "123456789.1234"}
+		"exactly8.ext", "ninechars.e", "sp ace.t t", "ünïcödé.txt", "ıſ.ıſ", "A_B-C.D+E", "12345678.123", "123456789.1234",
+		// names of directories with dots (the regime dir_dotted_collision): the function is the same for both kinds
+		"conf.d", "conf.bak", "v1.0", "v1.1", "a.b.d", "longdirectoryname.one", "longdirectoryname.two", ".git", "e..", "trail.", "mid..dle"}
 	n := c.N(300, 20000)
 	for i := 0; i < n+len(fixed); i++ {
 		id := fmt.Sprintf("d/short/%d", i)
@@ -111,7 +113,8 @@ func correspondence(c *hx.Ctx) {
 				case 2:
 					v = stem + strings.Repeat("z", j)
 				}
-				add(v+ext, ext == "" && rr.Chance(30))
+				// directories too carry dotted names: their entry has no extension whatever follows the dot
+				add(v+ext, rr.Chance(30) && (ext == "" || rr.Bool()))
 			}
 			// occupy candidate names
 			if rr.Chance(50) {
@@ -218,6 +221,86 @@ func correspondence(c *hx.Ctx) {
 		c.Case(id, "iso.walk", "names="+strings.Join(np, "|"), "dirs="+string(ds), "got="+strings.Join(got, ";"))
 		c.Impl(id, "match=1")
 		c.Stat("corr.walk")
+	}
+	// ---- the real walkTree + Name() on directories with DOTTED DIRECTORY names -------------------------
+	// the collision key walkTree groups by, the sibling table resolveCollisionGroup consults and the
+	// identifier Name() emits must be the model's: a directory enters with (SHORT, no extension) and is
+	// written as SHORT, so conf.d / conf.bak are one group and leave it with different identifiers
+	n = c.N(80, 2500)
+	for i := 0; i < n; i++ {
+		id := fmt.Sprintf("d/walkid/%d", i)
+		rr := r.Fork()
+		if !c.Want(id) {
+			continue
+		}
+		dir, err := os.MkdirTemp(c.Scratch, "walkid")
+		if err != nil {
+			continue
+		}
+		seen := map[string]bool{}
+		stems := []string{hx.Pick(rr, []string{"conf", "v1", "a.b", "longdirectoryname", "Data", "x"}), hx.Pick(rr, []string{"conf", "CONF", "longdirectoryname_2", "lib-2", "v1"})}
+		k := 2 + rr.Intn(8)
+		if i < 4 { // fixed witnesses first
+			k = 0
+			for _, nm := range [][]string{{"conf.d", "conf.bak"}, {"v1.0", "v1.1", "v1"}, {"a.b.c", "a.b.d"}, {"longdirectoryname.one", "longdirectoryname.two"}}[i] {
+				os.Mkdir(filepath.Join(dir, nm), 0o755)
+			}
+			os.WriteFile(filepath.Join(dir, "conf"), []byte("x"), 0o644)
+			os.WriteFile(filepath.Join(dir, "conf.txt"), []byte("x"), 0o644)
+		}
+		for j := 0; j < k; j++ {
+			nm := hx.Pick(rr, stems) + hx.Pick(rr, []string{"", ".d", ".bak", ".0", ".1", ".c", ".txt", ".TXT", ".one", ".two", ".", ".d.old"})
+			if seen[nm] {
+				continue
+			}
+			seen[nm] = true
+			if rr.Chance(65) {
+				os.Mkdir(filepath.Join(dir, nm), 0o755)
+			} else {
+				os.WriteFile(filepath.Join(dir, nm), []byte("x"), 0o644)
+			}
+		}
+		paths, dirs, shorts, exts, idents, err := iso9660.VerifC06WalkIdents(dir)
+		os.RemoveAll(dir)
+		if err != nil {
+			continue
+		}
+		var np, got, ids []string
+		var ds []byte
+		dotted, dup := 0, ""
+		identSeen := map[string]string{}
+		for j, p := range paths {
+			if p == "." {
+				continue
+			}
+			np = append(np, cps(p))
+			got = append(got, nmStr(shorts[j], exts[j]))
+			ids = append(ids, cps(idents[j]))
+			if dirs[j] {
+				ds = append(ds, '1')
+				if strings.Contains(p, ".") {
+					dotted++
+				}
+			} else {
+				ds = append(ds, '0')
+			}
+			if o, ok := identSeen[idents[j]]; ok && dup == "" {
+				dup = fmt.Sprintf("%q and %q both get the identifier %q", o, p, idents[j])
+			}
+			identSeen[idents[j]] = p
+		}
+		c.Case(id, "iso.walkid", "names="+strings.Join(np, "|"), "dirs="+string(ds), "got="+strings.Join(got, ";"), "ids="+strings.Join(ids, "|"))
+		c.Impl(id, "match=1", "ids=1", "distinct=1")
+		c.Stat("corr.walkid")
+		if dotted > 0 {
+			c.Stat("corr.walkid.dotted-dirs")
+		}
+		c.Distinct("walkid|" + strings.Join(paths, "/"))
+		if dup != "" {
+			c.Fail(id+"/distinct", tagNoFind, "walkTree + Name(): "+dup, strings.Join(paths, " "))
+		} else {
+			c.OK(id + "/distinct")
+		}
 	}
 	// ---- calculateBlocks ---------------------------------------------------------------------------
 	for i := 0; i < c.N(100, 3000); i++ {
